@@ -649,6 +649,20 @@ static Token *subst(Token *tok, MacroArg *args) {
   return head.next;
 }
 
+// The first token of a macro expansion takes the place of the macro
+// token on its line. If the expansion is empty, `first` is the token
+// that follows the invocation, which may begin a new line (and may be
+// the '#' of a directive), so it keeps its own flags as well.
+static void inherit_flags(Token *first, Token *follow, Token *macro_token) {
+  if (first == follow) {
+    first->at_bol = first->at_bol || macro_token->at_bol;
+    first->has_space = first->has_space || macro_token->has_space;
+    return;
+  }
+  first->at_bol = macro_token->at_bol;
+  first->has_space = macro_token->has_space;
+}
+
 // If tok is a macro, expand it and return true.
 // Otherwise, do nothing and return false.
 static bool expand_macro(Token **rest, Token *tok) {
@@ -675,8 +689,7 @@ static bool expand_macro(Token **rest, Token *tok) {
     for (Token *t = body; t->kind != TK_EOF; t = t->next)
       t->origin = tok;
     *rest = append(body, tok->next);
-    (*rest)->at_bol = tok->at_bol;
-    (*rest)->has_space = tok->has_space;
+    inherit_flags(*rest, tok->next, tok);
     return true;
   }
 
@@ -703,8 +716,7 @@ static bool expand_macro(Token **rest, Token *tok) {
   for (Token *t = body; t->kind != TK_EOF; t = t->next)
     t->origin = macro_token;
   *rest = append(body, tok->next);
-  (*rest)->at_bol = macro_token->at_bol;
-  (*rest)->has_space = macro_token->has_space;
+  inherit_flags(*rest, tok->next, macro_token);
   return true;
 }
 
